@@ -328,7 +328,7 @@ PROPS["C16"] = {
 PROPS["C17"] = {
     "pkg": "c17",
     "variants": [
-        {"name": "bubble", "synctest": True, "kinds": ["c17.once-bubble", "c17.sema-bubble", "c17.sema-burst", "c17.hot-key", "c17.typed"]},
+        {"name": "bubble", "synctest": True, "kinds": ["c17.once-bubble", "c17.sema-bubble", "c17.sema-burst", "c17.hot-key", "c17.typed", "c17.panic"]},
         {"name": "stress", "race": True, "kinds": ["c17.once-stress", "c17.sema-stress"], "shards": {"thorough": 8}},
     ],
     "technique": "generated concurrent programs: (1) harness-gated scripts inside a testing/synctest bubble with exact quiescence and virtual time, (2) barrier-start real-thread stress under the race detector; call-count, result-identity, progress and holder-count invariants",
